@@ -653,6 +653,67 @@ struct BodyScan {
     field_values: Vec<(Vec<syn::Attribute>, Range<usize>)>,
     str_matches: Vec<StrMatch>,
     tries: Vec<(usize, Range<usize>)>, // (start of operand, range of the `?` token)
+    returns: Vec<Range<usize>>,
+    chains: Vec<Chain>,
+}
+
+/// `BASE.into_iter()|.iter() {.map|.filter|.filter_map|.flat_map(..)}* .collect()|.sum()` (rule R2)
+struct Chain {
+    whole: Range<usize>,
+    base: Range<usize>,
+    by_ref: bool,
+    stages: Vec<Stage>,
+    terminal: String,
+}
+
+struct Stage {
+    kind: String,
+    // closure: (params text, body range) ; otherwise the argument expression text range (a function path)
+    closure: Option<(Vec<Range<usize>>, Range<usize>)>,
+    arg: Range<usize>,
+}
+
+fn parse_chain(e: &syn::ExprMethodCall) -> Option<Chain> {
+    let term = e.method.to_string();
+    if term != "collect" && term != "sum" {
+        return None;
+    }
+    if !e.args.is_empty() {
+        return None;
+    }
+    let mut stages = vec![];
+    let mut cur: &syn::Expr = &e.receiver;
+    loop {
+        match cur {
+            syn::Expr::MethodCall(m) => {
+                let name = m.method.to_string();
+                match name.as_str() {
+                    "map" | "filter" | "filter_map" | "flat_map" if m.args.len() == 1 => {
+                        let a = &m.args[0];
+                        let closure = if let syn::Expr::Closure(c) = a {
+                            Some((c.inputs.iter().map(|p| br(p)).collect(), br(&*c.body)))
+                        } else {
+                            None
+                        };
+                        stages.push(Stage { kind: name, closure, arg: br(a) });
+                        cur = &m.receiver;
+                    }
+                    "into_iter" | "iter" if m.args.is_empty() => {
+                        stages.reverse();
+                        return Some(Chain {
+                            whole: br(e),
+                            base: br(&*m.receiver),
+                            by_ref: name == "iter",
+                            stages,
+                            terminal: term,
+                        });
+                    }
+                    _ => return None,
+                }
+            }
+            _ => return None,
+        }
+    }
 }
 
 struct StrArm {
@@ -772,6 +833,16 @@ impl<'ast> Visit<'ast> for BodyScan {
             });
         }
         syn::visit::visit_expr_match(self, n);
+    }
+    fn visit_expr_method_call(&mut self, n: &'ast syn::ExprMethodCall) {
+        if let Some(c) = parse_chain(n) {
+            self.chains.push(c);
+        }
+        syn::visit::visit_expr_method_call(self, n);
+    }
+    fn visit_expr_return(&mut self, n: &'ast syn::ExprReturn) {
+        self.returns.push(br(n));
+        syn::visit::visit_expr_return(self, n);
     }
     fn visit_expr_try(&mut self, n: &'ast syn::ExprTry) {
         self.tries.push((br(&*n.expr).start, br(&n.question_token)));
@@ -975,6 +1046,113 @@ fn handle_fn(
                 edits.insert_last(l.whole.end, " }");
                 log.push(format!("R6:for->while loop {}", n));
             }
+            "chain" => {
+                let c = scan.chains.get(n).ok_or_else(|| format!("lost anchor: iterator chain {} not found ({} present)", n, scan.chains.len()))?;
+                let spec = e["spec"].as_str().unwrap_or("");
+                let head_h = e["head"].as_str().unwrap_or("");
+                let pre_push = e["pre_push"].as_str().unwrap_or("");
+                let after = e["after"].as_str().unwrap_or("");
+                let elem_ty = e["elem"].as_str().unwrap_or("");
+                // The closure bodies stay where they are (so other edits inside them still apply); only the text around
+                // them is replaced.
+                enum Part { Text(String), Keep(Range<usize>) }
+                let mut parts: Vec<Part> = vec![];
+                let mut t = String::new();
+                let is_sum = c.terminal == "sum";
+                let out = format!("__out{}", n);
+                if is_sum {
+                    t.push_str(&format!("{{ let mut {}: usize = 0; ", out));
+                } else if elem_ty.is_empty() {
+                    t.push_str(&format!("{{ let mut {} = Vec::new(); ", out));
+                } else {
+                    t.push_str(&format!("{{ let mut {}: Vec<{}> = Vec::new(); ", out, elem_ty));
+                }
+                let base = &src[c.base.clone()];
+                let iter_expr = if c.by_ref { format!("{}.iter()", base) } else { base.to_string() };
+                t.push_str(&format!("for __e{n} in __it{n}: {it} {spec} {{ {head} let __c{n}_0 = __e{n}; ", n = n, it = iter_expr, spec = spec, head = head_h));
+                let mut k = 0usize;
+                let mut closers = String::new();
+                let mut flat = false;
+                for st in &c.stages {
+                    let curv = format!("__c{}_{}", n, k);
+                    let nextv = format!("__c{}_{}", n, k + 1);
+                    // emits `{ let PARAM = ARG; BODY }` (body kept in place) or `f(ARG)`
+                    let mut call = |t: &mut String, parts: &mut Vec<Part>, by_ref_arg: bool| -> Result<(), String> {
+                        let arg = if by_ref_arg { format!("&{}", curv) } else { curv.clone() };
+                        match &st.closure {
+                            Some((params, body)) => {
+                                if params.len() != 1 {
+                                    return Err("chain: closure must take one parameter".into());
+                                }
+                                t.push_str(&format!("{{ let {} = {}; ", &src[params[0].clone()], arg));
+                                parts.push(Part::Text(std::mem::take(t)));
+                                parts.push(Part::Keep(body.clone()));
+                                t.push_str(" }");
+                                Ok(())
+                            }
+                            None => {
+                                t.push_str(&format!("{}({})", &src[st.arg.clone()], arg));
+                                Ok(())
+                            }
+                        }
+                    };
+                    match st.kind.as_str() {
+                        "map" => {
+                            t.push_str(&format!("let {} = ", nextv));
+                            call(&mut t, &mut parts, false)?;
+                            t.push_str("; ");
+                            k += 1;
+                        }
+                        "filter" => {
+                            t.push_str(&format!("let __k{}_{} = ", n, k));
+                            call(&mut t, &mut parts, true)?;
+                            t.push_str(&format!("; if __k{}_{} {{ ", n, k));
+                            closers.push_str(" }");
+                        }
+                        "filter_map" => {
+                            t.push_str(&format!("let __o{}_{} = ", n, k));
+                            call(&mut t, &mut parts, false)?;
+                            t.push_str(&format!("; if let Some({}) = __o{}_{} {{ ", nextv, n, k));
+                            closers.push_str(" }");
+                            k += 1;
+                        }
+                        "flat_map" => {
+                            t.push_str(&format!("let mut {} = ", nextv));
+                            call(&mut t, &mut parts, false)?;
+                            t.push_str("; ");
+                            k += 1;
+                            flat = true;
+                        }
+                        other => return Err(format!("chain: adapter {} unsupported", other)),
+                    }
+                }
+                let last = format!("__c{}_{}", n, k);
+                t.push_str(&format!("{} ", pre_push));
+                if is_sum {
+                    t.push_str(&format!("{} = {} + {}; ", out, out, last));
+                } else if flat {
+                    t.push_str(&format!("{}.append(&mut {}); ", out, last));
+                } else {
+                    t.push_str(&format!("{}.push({}); ", out, last));
+                }
+                t.push_str(&closers);
+                t.push_str(&format!(" }} {} {} }}", after, out));
+                parts.push(Part::Text(t));
+                let mut cursor = c.whole.start;
+                let mut pending = String::new();
+                for p in parts {
+                    match p {
+                        Part::Text(x) => pending.push_str(&x),
+                        Part::Keep(r) => {
+                            edits.replace(cursor..r.start, std::mem::take(&mut pending));
+                            cursor = r.end;
+                        }
+                    }
+                }
+                edits.replace(cursor..c.whole.end, pending);
+                log.push(format!("R2:iterator chain {} ({}{}) -> defining loop, closure bodies verbatim", n,
+                    c.stages.iter().map(|s| s.kind.clone()).collect::<Vec<_>>().join("."), if is_sum { ".sum" } else { ".collect" }));
+            }
             "drop_nested_fn" => {
                 let name = e["text"].as_str().unwrap_or("");
                 let mut done = false;
@@ -998,6 +1176,12 @@ fn handle_fn(
                 for (start, q) in &scan.tries {
                     edits.insert(*start, "(match ");
                     edits.replace(q.clone(), format!(" {{ Ok(__v) => __v, Err(__e) => {{ proof {{ assert({}); }} return Err(__e); }} }})", cond));
+                }
+                if e["returns"].as_bool().unwrap_or(false) {
+                    for r in &scan.returns {
+                        edits.insert(r.start, format!("{{ proof {{ assert({}); }} ", cond));
+                        edits.insert(r.end, " }");
+                    }
                 }
                 log.push(format!("R13:{} `?` sites guarded", scan.tries.len()));
             }
